@@ -209,7 +209,7 @@ Proof. intro H. unfold unquote. rewrite H. reflexivity. Qed.
 Theorem any_roundtrip items s :
   has s items = true -> mem PERCENT s = false -> roundtrip (CAny items) (VStr s).
 Proof.
-  intros Hi Hp. exists s. cbn [to_url]. rewrite Hi. split; [reflexivity|].
+  intros Hi Hp. exists s. unfold to_url. cbn [is_raw_float]. rewrite Hi. split; [reflexivity|].
   rewrite (unquote_plain _ Hp). split; [exact Hi|reflexivity].
 Qed.
 
@@ -463,7 +463,7 @@ Section FloatContract.
   Theorem float_roundtrip x : canonical x ->
     exists u, to_url (CFloat signed) (VFloat (fstr x)) = BOk u
       /\ in_lang (lang_of (CFloat signed)) (unquote u) = true
-      /\ exists t, to_python (CFloat signed) (unquote u) = Some (VFloat t) /\ fparse t = x.
+      /\ exists t, to_python (CFloat signed) (unquote u) = Some (VFloatRaw t) /\ fparse t = x.
   Proof.
     intro Hx. exists (fstr x). split; [reflexivity|].
     rewrite (unquote_plain _ (float_lang_no_percent _ _ (fstr_shape x Hx))).
